@@ -198,7 +198,7 @@ def run_case(case):
         betas = [float(to_np(b)) for b in (getattr(res.history, "beta", None) or [])]
         if res.exc is not None:
             if isinstance(res.exc, smcrun.StallDetected) or rec.stall is not None:
-                viol.append({"mech": "C06/stall-beta-does-not-increase", "detail": f"{where}: {rec.stall} after betas {betas[-3:]}"})
+                viol.append({"mech": "C06/beta-above-one" if (rec.stall or {}).get("overshoot") else "C06/stall-beta-does-not-increase", "detail": f"{where}: {rec.stall} after betas {betas[-3:]}"})
             elif type(res.exc).__name__ == "WatchdogExceeded":
                 if len(betas) >= 2 and (np.diff(betas) <= 0).any():
                     viol.append({"mech": "C06/stall-beta-does-not-increase", "detail": f"{where}: watchdog with repeated beta"})
@@ -236,9 +236,13 @@ def run_case(case):
     # plus continuation) still has to increase strictly and end exactly at 1
     if case["mode"] != "fixed" and sampler == "smc" and res.exc is None and len(payloads) >= 3 and g.random() < 0.5:
         while True:
+            # adaptive options, or a fixed schedule whose grid the checkpointed temperature is (almost surely) not on
             opts3, _ = draw_opts(g, sampler)
-            if opts3.get("adaptive", True) and "max_n_steps" not in opts3:
+            if "max_n_steps" not in opts3:
                 break
+        if not opts3.get("adaptive", True):
+            opts3["n_steps"] = min(int(opts3["n_steps"]), 15)
+            counters["runs_continued_under_a_fixed_schedule"] += 1
         k3 = len(payloads) // 2 - 1
         from_live = bool(g.random() < 0.5)
         opts3["resume_from"] = live_states[k3] if from_live else payloads[k3]
@@ -251,7 +255,7 @@ def run_case(case):
         b3 = [float(to_np(b)) for b in (getattr(res3.history, "beta", None) or [])]
         if res3.exc is not None:
             if isinstance(res3.exc, smcrun.StallDetected) or rec3.stall is not None:
-                viol.append({"mech": "C06/stall-beta-does-not-increase", "detail": f"{w3}: {rec3.stall} after betas {b3[-3:]}"})
+                viol.append({"mech": "C06/beta-above-one" if (rec3.stall or {}).get("overshoot") else "C06/stall-beta-does-not-increase", "detail": f"{w3}: {rec3.stall} after betas {b3[-3:]}"})
             elif type(res3.exc).__name__ == "WatchdogExceeded":
                 inconclusive.append(f"watchdog fired without stall witness: {w3}")
             else:
